@@ -231,13 +231,57 @@ theorem inv_cleanup {s : TD} (hI : Inv s) (n : Nat) : Inv (cleanup s n) := by
           exact ⟨{ o with tornDown := true }, by simp, hip2⟩
         · simp only [e, if_false]; exact ⟨o2, ho2, hip2⟩
 
+/-- claiming a session (TerminateSession's check-and-mark) and counting its PADT changes nothing the invariant is about -/
+theorem inv_claimPadt {s : TD} (hI : Inv s) {n : Nat} {o : Obj} (ho : AMap.lookup s.objs n = some o) :
+    Inv (claimPadt s n o) := by
+  unfold claimPadt
+  refine ⟨?_, ?_, ?_, ?_, ?_⟩
+  · intro n' o' h hto
+    simp only [lookup_insert] at h
+    split at h
+    · rename_i e; subst e
+      simp only [Option.some.injEq] at h; subst h
+      exact hI.fresh _ o ho hto
+    · exact hI.fresh n' o' h hto
+  · intro n' o' h hto
+    simp only [lookup_insert] at h
+    split at h
+    · rename_i e; subst e
+      simp only [Option.some.injEq] at h; subst h
+      exact hI.done _ o ho hto
+    · exact hI.done n' o' h hto
+  · intro n' h
+    simp only [lookup_insert] at h
+    split at h
+    · simp at h
+    · exact hI.unused n' h
+  · intro id n' h
+    obtain ⟨o2, ho2, hid⟩ := hI.tbl id n' h
+    simp only [lookup_insert]
+    split
+    · rename_i e; subst e
+      rw [ho] at ho2; simp only [Option.some.injEq] at ho2; subst ho2
+      exact ⟨_, rfl, hid⟩
+    · exact ⟨o2, ho2, hid⟩
+  · intro n' hm
+    obtain ⟨o2, ho2, hip⟩ := hI.heldIp n' hm
+    simp only [lookup_insert]
+    split
+    · rename_i e; subst e
+      rw [ho] at ho2; simp only [Option.some.injEq] at ho2; subst ho2
+      exact ⟨_, rfl, hip⟩
+    · exact ⟨o2, ho2, hip⟩
+
+theorem inv_parked_congr {s : TD} (hI : Inv s) (p : AMap Nat Nat) : Inv { s with parked := p } :=
+  ⟨hI.fresh, hI.done, hI.unused, hI.tbl, hI.heldIp⟩
+
 theorem inv_terminate {s : TD} (hI : Inv s) (n : Nat) : Inv (terminate s n) := by
   unfold terminate
   split
-  · split
+  · rename_i o ho
+    split
     · exact hI
-    · apply inv_cleanup
-      exact ⟨hI.fresh, hI.done, hI.unused, hI.tbl, hI.heldIp⟩
+    · exact inv_cleanup (inv_claimPadt hI ho) n
   · exact hI
 
 theorem inv_foldl_terminate (l : List (Nat × Nat)) : ∀ {s : TD}, Inv s →
@@ -275,6 +319,21 @@ theorem inv_step {s : TD} (hI : Inv s) (op : Op) : Inv (step s op) := by
     · exact hI
   | termUser u => exact inv_foldl_terminate _ hI
   | termAll => exact inv_foldl_terminate _ hI
+  | tpark tag n =>
+    simp only [step]
+    split
+    · exact hI
+    · split
+      · rename_i o ho
+        split
+        · exact hI
+        · exact inv_parked_congr (inv_claimPadt hI ho) _
+      · exact hI
+  | tresume tag =>
+    simp only [step]
+    split
+    · exact inv_cleanup (inv_parked_congr hI _) _
+    · exact hI
   | authFail n =>
     simp only [step]
     split
@@ -322,6 +381,76 @@ theorem inv_run {s : TD} (hI : Inv s) (ops : List Op) : Inv (run s ops) := by
   | nil => exact hI
   | cons op ops ih => exact ih (inv_step hI op)
 
+theorem cleanup_radius (t : TD) (k : Nat) : (cleanup t k).radius = t.radius := by
+  unfold cleanup; split
+  · rfl
+  · split
+    · rfl
+    · rw [removeSession_radius]
+
+theorem terminate_radius (t : TD) (k : Nat) : (terminate t k).radius = t.radius := by
+  unfold terminate
+  split
+  · split
+    · rfl
+    · rw [cleanup_radius]; rfl
+  · rfl
+
+theorem foldl_terminate_radius (l : List (Nat × Nat)) : ∀ (t : TD),
+    (l.foldl (fun st p => terminate st p.2) t).radius = t.radius := by
+  induction l with
+  | nil => intro t; rfl
+  | cons p r ih => intro t; simp only [List.foldl_cons]; rw [ih, terminate_radius]
+
+theorem step_radius (s : TD) (op : Op) : (step s op).radius = s.radius := by
+  cases op with
+  | mk n m a i => simp only [step, mk]; split <;> rfl
+  | padt n m =>
+    simp only [step]; split
+    · split
+      · exact cleanup_radius _ _
+      · rfl
+    · rfl
+  | term n =>
+    simp only [step]; split
+    · exact terminate_radius _ _
+    · rfl
+  | termId id =>
+    simp only [step]; split
+    · exact terminate_radius _ _
+    · rfl
+  | termMac m =>
+    simp only [step]; split
+    · split
+      · exact terminate_radius _ _
+      · rfl
+    · rfl
+  | termUser u => exact foldl_terminate_radius _ _
+  | termAll => exact foldl_terminate_radius _ _
+  | authFail n =>
+    simp only [step]; split
+    · split <;> rfl
+    · rfl
+  | tpark tag n =>
+    simp only [step]; split
+    · rfl
+    · split
+      · split <;> rfl
+      · rfl
+  | tresume tag =>
+    simp only [step]; split
+    · rw [cleanup_radius]
+    · rfl
+
+theorem run_radius (s : TD) (ops : List Op) : (run s ops).radius = s.radius := by
+  induction ops generalizing s with
+  | nil => rfl
+  | cons op ops ih =>
+    simp only [run, List.foldl_cons]
+    have h1 := ih (step s op)
+    simp only [run] at h1
+    rw [h1, step_radius]
+
 /-! ## property theorems -/
 
 /-- **At most one Accounting-Stop and one map removal per session**, whatever sequence of
@@ -351,75 +480,47 @@ theorem terminated_holds_nothing (radius : Bool) (ops : List Op) (n : Nat) (o : 
     count (run (init radius) ops).ebpf n = 1 ∧
     count (run (init radius) ops).stops n = (if radius && o.authed then 1 else 0) := by
   have hI := inv_run (inv_init radius) ops
-  have hr : (run (init radius) ops).radius = radius := by
-    have : ∀ (s : TD) (ops : List Op), (run s ops).radius = s.radius := by
-      intro s ops
-      induction ops generalizing s with
-      | nil => rfl
-      | cons op ops ih =>
-        simp only [run, List.foldl_cons]
-        have h1 := ih (step s op)
-        simp only [run] at h1
-        rw [h1]
-        have hcl : ∀ (t : TD) (k : Nat), (cleanup t k).radius = t.radius := by
-          intro t k; unfold cleanup; split
-          · rfl
-          · split
-            · rfl
-            · rw [removeSession_radius]
-        have hte : ∀ (t : TD) (k : Nat), (terminate t k).radius = t.radius := by
-          intro t k; unfold terminate
-          split
-          · split
-            · rfl
-            · rw [hcl]
-          · rfl
-        have hfo : ∀ (l : List (Nat × Nat)) (t : TD),
-            (l.foldl (fun st p => terminate st p.2) t).radius = t.radius := by
-          intro l; induction l with
-          | nil => intro t; rfl
-          | cons p r ih2 => intro t; simp only [List.foldl_cons]; rw [ih2, hte]
-        cases op with
-        | mk n m a i => simp only [step, mk]; split <;> rfl
-        | padt n m =>
-          simp only [step]; split
-          · split
-            · exact hcl _ _
-            · rfl
-          · rfl
-        | term n => simp only [step]; split
-                    · exact hte _ _
-                    · rfl
-        | termId id => simp only [step]; split
-                       · exact hte _ _
-                       · rfl
-        | termMac m =>
-          simp only [step]; split
-          · split
-            · exact hte _ _
-            · rfl
-          · rfl
-        | termUser u => exact hfo _ _
-        | termAll => exact hfo _ _
-        | authFail n =>
-          simp only [step]; split
-          · rename_i o _; cases ht : o.tornDown <;> simp
-          · rfl
-    exact this _ _
+  have hr : (run (init radius) ops).radius = radius := run_radius _ ops
   obtain ⟨a, b, c, d⟩ := hI.done n o ho ht
   rw [hr] at b
   exact ⟨c, d, a, b⟩
 
-/-- **Every termination path tears the session down**: directly after TerminateSession on a session
-    object it is marked torn down (so `terminated_holds_nothing` applies to it). -/
-theorem terminate_tears_down (s : TD) (n : Nat) (o : Obj) (ho : AMap.lookup s.objs n = some o) :
-    ∃ o', AMap.lookup (step s (.term n)).objs n = some o' ∧ o'.tornDown = true := by
-  simp only [step, ho, Option.isSome_some, if_true, terminate]
+theorem cleanup_tears_down (s : TD) (n : Nat) (o : Obj) (ho : AMap.lookup s.objs n = some o) :
+    ∃ o', AMap.lookup (cleanup s n).objs n = some o' ∧ o'.tornDown = true := by
+  unfold cleanup
+  rw [ho]
   by_cases ht : o.tornDown = true
   · simp only [ht, if_true]; exact ⟨o, ho, ht⟩
   · have ht' : o.tornDown = false := by simpa using ht
-    simp only [ht', Bool.false_eq_true, if_false, cleanup, ho]
+    simp only [ht', Bool.false_eq_true, if_false]
     rw [removeSession_objs]; exact ⟨{ o with tornDown := true }, by simp, rfl⟩
+
+/-- **Every termination path tears the session down**: directly after TerminateSession on a session object that no
+    other TerminateSession call is at work on, it is marked torn down (so `terminated_holds_nothing` applies to it). -/
+theorem terminate_tears_down (s : TD) (n : Nat) (o : Obj) (ho : AMap.lookup s.objs n = some o)
+    (hc : o.claimed = false) :
+    ∃ o', AMap.lookup (step s (.term n)).objs n = some o' ∧ o'.tornDown = true := by
+  simp only [step, ho, Option.isSome_some, if_true, terminate]
+  by_cases ht : o.tornDown = true
+  · simp only [ht, Bool.true_or, if_true]; exact ⟨o, ho, ht⟩
+  · have ht' : o.tornDown = false := by simpa using ht
+    simp only [ht', hc, Bool.or_self, Bool.false_eq_true, if_false]
+    exact cleanup_tears_down _ n { o with claimed := true } (by simp [claimPadt])
+
+/-- **By two paths at once**: a TerminateSession call that finds another one already at work on the session does
+    nothing at all — no second PADT, no state change (fix 58cbf8f); the call at work finishes the job
+    (`parked_call_tears_down`). -/
+theorem terminate_while_claimed_inert (s : TD) (n : Nat) (o : Obj) (ho : AMap.lookup s.objs n = some o)
+    (hc : o.claimed = true) : step s (.term n) = s := by
+  simp [step, ho, terminate, hc]
+
+/-- a TerminateSession call held inside its PADT callback tears the session down when it goes on, whatever
+    happened to the session in between -/
+theorem parked_call_tears_down (s : TD) (tag n : Nat) (o : Obj) (hp : AMap.lookup s.parked tag = some n)
+    (ho : AMap.lookup s.objs n = some o) :
+    ∃ o', AMap.lookup (step s (.tresume tag)).objs n = some o' ∧ o'.tornDown = true := by
+  simp only [step, hp]
+  exact cleanup_tears_down _ n o ho
 
 /-- a client PADT from the session's own MAC tears it down; from any other MAC it changes nothing -/
 theorem padt_owner_only (s : TD) (n m : Nat) (o : Obj) (ho : AMap.lookup s.objs n = some o) :
@@ -463,18 +564,204 @@ theorem terminate_idempotent (s : TD) (n : Nat) : terminate (terminate s n) n = 
     have : terminate s n = s := by simp [terminate, ho]
     rw [this, this]
   | some o =>
-    by_cases ht : o.tornDown = true
-    · have : terminate s n = s := by simp [terminate, ho, ht]
+    by_cases ht : (o.tornDown || o.claimed) = true
+    · have : terminate s n = s := by simp only [terminate, ho, ht, if_true]
       rw [this, this]
-    · have ht' : o.tornDown = false := by simpa using ht
-      have h1 : AMap.lookup (terminate s n).objs n = some { o with tornDown := true } := by
-        simp [terminate, ho, ht', cleanup, removeSession_objs]
-      generalize terminate s n = t at h1 ⊢
-      simp [terminate, h1]
+    · have ht' : (o.tornDown || o.claimed) = false := by simpa using ht
+      have h0 : terminate s n = cleanup (claimPadt s n o) n := by
+        simp only [terminate, ho, ht', Bool.false_eq_true, if_false]
+      obtain ⟨o', h1, h2⟩ := cleanup_tears_down (claimPadt s n o) n { o with claimed := true } (by simp [claimPadt])
+      rw [h0]
+      generalize cleanup (claimPadt s n o) n = t at h1 ⊢
+      simp [terminate, h1, h2]
+
+/-! ### exactly one PADT per session, also under concurrent terminations -/
+
+/-- whether a TerminateSession call has claimed the session -/
+def cl (s : TD) (n : Nat) : Option Bool := (AMap.lookup s.objs n).map (·.claimed)
+
+/-- a server PADT was sent for exactly the sessions some TerminateSession call has claimed -/
+def PInv (s : TD) : Prop := ∀ n, count s.padt n = (if cl s n = some true then 1 else 0)
+
+theorem pinv_congr {s s' : TD} (h : PInv s) (hp : s'.padt = s.padt)
+    (hc : ∀ k, cl s' k = some true ↔ cl s k = some true) : PInv s' := by
+  intro k
+  rw [hp, h k]
+  by_cases e : cl s k = some true
+  · rw [if_pos e, if_pos ((hc k).mpr e)]
+  · rw [if_neg e, if_neg (fun e' => e ((hc k).mp e'))]
+
+theorem removeSession_padt (s : TD) (id : Nat) : (removeSession s id).padt = s.padt := by
+  unfold removeSession; split <;> rfl
+
+theorem cleanup_padt (s : TD) (n : Nat) : (cleanup s n).padt = s.padt := by
+  unfold cleanup
+  split
+  · rfl
+  · split
+    · rfl
+    · rw [removeSession_padt]
+
+theorem cleanup_cl (s : TD) (n k : Nat) : cl (cleanup s n) k = cl s k := by
+  unfold cleanup cl
+  split
+  · rfl
+  · rename_i o ho
+    split
+    · rfl
+    · rw [removeSession_objs]
+      simp only [lookup_insert]
+      split
+      · rename_i e; subst e; rw [ho]; rfl
+      · rfl
+
+theorem pinv_cleanup {s : TD} (h : PInv s) (n : Nat) : PInv (cleanup s n) := by
+  intro k; rw [cleanup_padt, cleanup_cl]; exact h k
+
+theorem pinv_claimPadt {s : TD} (h : PInv s) {n : Nat} {o : Obj} (ho : AMap.lookup s.objs n = some o)
+    (hc : o.claimed = false) : PInv (claimPadt s n o) := by
+  intro k
+  show count (bump s.padt n) k = _
+  rw [count_bump]
+  have hk := h k
+  by_cases e : k = n
+  · subst e
+    have : cl s k = some false := by simp [cl, ho, hc]
+    rw [this] at hk
+    simp only [if_true]
+    have : cl (claimPadt s k o) k = some true := by simp [cl, claimPadt]
+    rw [this]; simp at hk ⊢; omega
+  · simp only [e, if_false]
+    have : cl (claimPadt s n o) k = cl s k := by simp [cl, claimPadt, lookup_insert, e]
+    rw [this]; exact hk
+
+theorem pinv_terminate {s : TD} (h : PInv s) (n : Nat) : PInv (terminate s n) := by
+  unfold terminate
+  split
+  · rename_i o ho
+    split
+    · exact h
+    · rename_i hc
+      have hc' : o.claimed = false := by
+        cases e : o.claimed
+        · rfl
+        · simp [e] at hc
+      exact pinv_cleanup (pinv_claimPadt h ho hc') n
+  · exact h
+
+theorem pinv_foldl_terminate (l : List (Nat × Nat)) : ∀ {s : TD}, PInv s →
+    PInv (l.foldl (fun st p => terminate st p.2) s) := by
+  induction l with
+  | nil => intro s h; exact h
+  | cons p rest ih => intro s h; exact ih (pinv_terminate h p.2)
+
+theorem pinv_step {s : TD} (h : PInv s) (op : Op) : PInv (step s op) := by
+  cases op with
+  | mk n m a i =>
+    simp only [step, mk]
+    split
+    · exact h
+    · rename_i hnone
+      have hn : AMap.lookup s.objs n = none := by
+        cases e : AMap.lookup s.objs n
+        · rfl
+        · simp [e] at hnone
+      refine pinv_congr h rfl ?_
+      intro k
+      simp only [cl, lookup_insert]
+      split
+      · rename_i e; subst e; simp [hn]
+      · exact Iff.rfl
+  | padt n m =>
+    simp only [step]
+    split
+    · split
+      · exact pinv_cleanup h n
+      · exact h
+    · exact h
+  | term n =>
+    simp only [step]
+    split
+    · exact pinv_terminate h n
+    · exact h
+  | termId id =>
+    simp only [step]
+    split
+    · exact pinv_terminate h _
+    · exact h
+  | termMac m =>
+    simp only [step]
+    split
+    · split
+      · exact pinv_terminate h _
+      · exact h
+    · exact h
+  | termUser u => exact pinv_foldl_terminate _ h
+  | termAll => exact pinv_foldl_terminate _ h
+  | authFail n =>
+    simp only [step]
+    split
+    · rename_i o ho
+      split
+      · exact h
+      · intro k
+        have hk := h k
+        show count s.padt k = _
+        have : cl { s with objs := AMap.insert s.objs n { o with authed := false } } k = cl s k := by
+          simp only [cl, lookup_insert]
+          split
+          · rename_i e; subst e; rw [ho]; rfl
+          · rfl
+        rw [this]; exact hk
+    · exact h
+  | tpark tag n =>
+    simp only [step]
+    split
+    · exact h
+    · split
+      · rename_i o ho
+        split
+        · exact h
+        · rename_i hc
+          have hc' : o.claimed = false := by
+            cases e : o.claimed
+            · rfl
+            · simp [e] at hc
+          exact pinv_congr (pinv_claimPadt h ho hc') rfl (fun _ => Iff.rfl)
+      · exact h
+  | tresume tag =>
+    simp only [step]
+    split
+    · have h' : PInv { s with parked := AMap.erase s.parked tag } := pinv_congr h rfl (fun _ => Iff.rfl)
+      exact pinv_cleanup h' _
+    · exact h
+
+theorem pinv_run {s : TD} (h : PInv s) (ops : List Op) : PInv (run s ops) := by
+  induction ops generalizing s with
+  | nil => exact h
+  | cons op ops ih => exact ih (pinv_step h op)
+
+/-- **Exactly one PADT**: whatever terminations are applied, in whatever order and however two TerminateSession
+    calls interleave (`tpark`/`tresume`), the server sends at most one PADT per session, and exactly one iff a
+    TerminateSession call took the session on. -/
+theorem padt_at_most_once (radius : Bool) (ops : List Op) (n : Nat) :
+    count (run (init radius) ops).padt n ≤ 1 ∧
+    (count (run (init radius) ops).padt n = 1 ↔ cl (run (init radius) ops) n = some true) := by
+  have h := pinv_run (s := init radius) (by intro k; simp [init, cl, count, AMap.lookup]) ops n
+  rw [h]
+  constructor
+  · split <;> omega
+  · split <;> simp_all
 
 /-! non-vacuity: a concrete history with a double termination of an authenticated, addressed session -/
 example : count (run (init true) [.mk 1 1 true true, .term 1, .term 1, .termAll]).stops 1 = 1 ∧
     count (run (init true) [.mk 1 1 true true, .term 1, .term 1, .termAll]).padt 1 = 1 ∧
     (run (init true) [.mk 1 1 true true, .term 1, .term 1]).held = [] := by decide
+
+/-! non-vacuity: two terminations at once — A is held in its PADT, B (and a client PADT) arrive, A goes on -/
+example : let s := run (init true) [.mk 1 1 true true, .tpark 0 1, .term 1, .padt 1 1, .tresume 0, .term 1]
+    count s.padt 1 = 1 ∧ count s.stops 1 = 1 ∧ count s.ebpf 1 = 1 ∧ s.held = [] ∧ s.live = [] := by decide
+example : (AMap.lookup (run (init true) [.mk 1 1 true true, .tpark 0 1]).objs 1).map (·.claimed) = some true := by
+  decide
 
 end Bng.Spec.C16Teardown
